@@ -44,6 +44,24 @@ BitMonitorIsHistory ==
       BitToggles(mon.fs[f], i, j) <=> /\ \E k \in DOMAIN hist : Bit(hist[k][f][i], j) = 1
                                       /\ \E k \in DOMAIN hist : Bit(hist[k][f][i], j) = 0
 
+\* ---- families: the class of a call is a function of its value here, so no extra branching
+ClsOf(v) == IF v[1][1] = 0 THEN "a" ELSE "b"
+RECURSIVE MonOf(_)
+MonOf(seq) == IF seq = <<>> THEN NewMon(McFields) ELSE EmitMon(MonOf(SubSeq(seq, 1, Len(seq) - 1)), seq[Len(seq)])
+RECURSIVE FamOf(_)
+FamOf(seq) == IF seq = <<>> THEN NewFamily(McFields, {"a", "b"})
+              ELSE EmitFamily(FamOf(SubSeq(seq, 1, Len(seq) - 1)), ClsOf(seq[Len(seq)]), seq[Len(seq)])
+Only(c) == LET RECURSIVE Sel(_)
+               Sel(seq) == IF seq = <<>> THEN <<>> ELSE (IF ClsOf(seq[1]) = c THEN <<seq[1]>> ELSE <<>>) \o Sel(SubSeq(seq, 2, Len(seq)))
+           IN Sel(hist)
+\* the family's members are the monitors of the whole history and of each class's sub-history
+FamilyIsSubHistories ==
+  LET fam == FamOf(hist) IN
+  /\ fam["all"] = mon
+  /\ \A c \in {"a", "b"} : fam[c] = MonOf(Only(c))
+  /\ (FamilyRepeatVerdict(fam) = <<>>) <=> FamilyNoRepeat(fam)
+  /\ (FamilyEndVerdict(fam) = <<>>) <=> FamilyEndOK(fam)
+
 VerdictsAgree ==
   /\ (RepeatVerdict(mon) = <<>>) <=> NoRepeatIn(mon)
   /\ (EndVerdict(mon) = <<>>) <=> (Judgeable(mon) /\ EndOKIn(mon))
